@@ -387,6 +387,12 @@ def run_chunk(chunk):
             for v in ({'a': [1, 2]}, ['x'], 'str', {}, {'Callout List': [{'Priority': 'H', 'LocationCode': 'Ufcs-P0'}]}):
                 for pad in range(4):
                     _do(res, {'k': 'misc', 'cfg': 'absent', 'sub': 3, 'data': (json.dumps(v).encode() + b'\0' * pad).hex()})
+            # the stored text is UTF-8: non-ASCII characters in keys and values, written raw and as \u escapes
+            for v in ({'Ort': 'Z\u00fcrich', 'Temp\u00e9rature \u2265 85\u00b0C': ['\u65e5\u672c', '\U0001f600']}, ['caf\u00e9'], '\u00ff\u0100'):
+                for ascii_only in (False, True):
+                    for pad in (0, 3):
+                        _do(res, {'k': 'misc', 'cfg': 'absent', 'sub': 3,
+                                  'data': (json.dumps(v, ensure_ascii=ascii_only).encode('utf-8') + b'\0' * pad).hex()})
             for i in range(24):
                 for v in (0x01, 0xff):
                     raw = bytearray(24)
